@@ -14,6 +14,9 @@ IMPORTS = ('phylib.io.traces',)
 NR, NC = 3, 2
 BIG = 100000
 SCALARS = {'i2': 2, 'i3': 3, 'im1': -1, 'f05': 0.5, 'f3': 3.0}
+# only in the random forests (tokens are opaque to the specification): FLOAT scalars equal to the neutral element of an
+# operator - x + 0.0 and x * 1.0 on integer samples are float arrays
+FOREST_SCALARS = dict(SCALARS, f0=0.0, f1=1.0)
 COLS = {'c21': [1, 0], 'c1': [0], 'c12': [0, 1], 'c2': [1], 'c11': [0, 0]}
 BINOPS = {
     'add': lambda x, a: x + a, 'radd': lambda x, a: a + x,
@@ -87,7 +90,7 @@ def apply_eager(x, op):
         return x[:, COLS[tok]]
     if name in UNOPS:
         return UNOPS[name](x)
-    return BINOPS[name](x, SCALARS[tok])
+    return BINOPS[name](x, FOREST_SCALARS[tok])
 
 
 def project_ops(reader):
@@ -98,7 +101,7 @@ def project_ops(reader):
         elif arg is None:
             tok = ['none']
         else:
-            tok = [k for k, v in SCALARS.items() if v == arg and type(v) is type(arg)]
+            tok = [k for k, v in FOREST_SCALARS.items() if v == arg and type(v) is type(arg)]
         out.append([name, tok[0] if tok else 'unknown:%r' % (arg,)])
     return out
 
@@ -215,7 +218,7 @@ def replay_history(ctx, case, backends):
 
 def _random_forest_records(ctx, backends, rng, rid0, steps):
     ops_all = ([('pos', 'none'), ('neg', 'none')] +
-               [(a, t) for a in BINOPS for t in SCALARS] + [('cols', t) for t in COLS])
+               [(a, t) for a in BINOPS for t in FOREST_SCALARS] + [('cols', t) for t in COLS])
     bname = list(backends)[rng.randint(len(backends))]
     base, full = backends[bname]
     cbin = bname.startswith('cbin')
@@ -237,7 +240,7 @@ def _random_forest_records(ctx, backends, rng, rid0, steps):
             name, tok = op
             rp = readers[parent]
             r_new = (rp[:, col_form(tok, len(recs), eagers[parent].shape[1])] if name == 'cols' else
-                     UNOPS[name](rp) if name in UNOPS else BINOPS[name](rp, SCALARS[tok]))
+                     UNOPS[name](rp) if name in UNOPS else BINOPS[name](rp, FOREST_SCALARS[tok]))
             x = len(readers) + 1
             readers[x], eagers[x] = r_new, e_new
             has_pow[x] = has_pow[parent] or 'pow' in name
